@@ -256,9 +256,10 @@ ld check_residual(const ref_t *G, int_t n, int trans, const elem_t *X, int_t ldx
             ref_t g = G[(size_t)j * n + i];
             ld w = W[(size_t)perm_c[j] * n + perm_r[i]];
             if (g == 0 && w == 0) continue;
-            if (trans == 0) {         /* row i, column j of op(G)=G */
+            if (trans == 0 || trans == 3) {         /* row i, column j of op(G)=G or conj(G) */
                 ref_t x = E2R(X[(size_t)c * ldx + j]);
-                r[i] -= g * x; bnd[i] += w * rabs(x); aax[i] += rabs(g) * rabs(x);
+                ref_t gg = (trans == 3) ? conjl(g) : g;
+                r[i] -= gg * x; bnd[i] += w * rabs(x); aax[i] += rabs(g) * rabs(x);
             } else {                  /* op(G) = G^T or G^H: entry (j,i) */
                 ref_t x = E2R(X[(size_t)c * ldx + i]);
                 ref_t gg = (trans == 2) ? conjl(g) : g;
@@ -340,4 +341,40 @@ long struct_rank_prefix(const csc_t *G, const int_t *perm_c)
         if (!aug(G, inv[k], rowmatch, vis, k + 1)) { res = k + 1; break; }
     free(inv); free(rowmatch); free(vis);
     return res;
+}
+
+/* info > 0: the returned objects only have to be safe to inspect: every begin/end pair must be
+   walkable (the reads themselves are checked by ASan when that build runs) */
+int walk_LU(const SuperMatrix *L, const SuperMatrix *U, int_t n, const char *kp)
+{
+    char key[128]; int bad = 0;
+#define WFAIL(sub, ...) do { snprintf(key, sizeof key, "%s|%s", kp, sub); jo_fail(key, __VA_ARGS__); ++bad; } while (0)
+    if (L->Stype != SLU_SCP || U->Stype != SLU_NCP || L->nrow != n || L->ncol != n || U->nrow != n || U->ncol != n || !L->Store || !U->Store) {
+        WFAIL("header", "L/U headers are not usable (Stype %d/%d)", L->Stype, U->Stype); return bad; }
+    if (n == 0) return 0;
+    const SCPformat *Ls = L->Store; const NCPformat *Us = U->Store;
+    const elem_t *Lv = Ls->nzval, *Uv = Us->nzval;
+    long ns = (long)Ls->nsuper + 1;
+    if (ns < 1 || ns > n) { WFAIL("nsuper-range", "nsuper+1 = %ld", ns); return bad; }
+    volatile ld sink = 0;
+    for (long s = 0; s < ns; ++s) {
+        long fs = Ls->sup_to_colbeg[s], fe = Ls->sup_to_colend[s];
+        if (fs < 0 || fe > n || fe <= fs) { WFAIL("sup-range", "supernode %ld has column range [%ld,%ld)", s, fs, fe); continue; }
+        long long rb = Ls->rowind_colbeg[fs], re = Ls->rowind_colend[fs];
+        if (rb < 0 || re < rb || re - rb > 4LL * n + 16) { WFAIL("rowlist-extent", "supernode %ld: row list [%lld,%lld)", s, rb, re); continue; }
+        for (long long k = rb; k < re; ++k) sink += Ls->rowind[k];
+        for (long j = fs; j < fe; ++j) {
+            long long vb = Ls->nzval_colbeg[j], ve = Ls->nzval_colend[j];
+            if (vb < 0 || ve < vb || ve - vb > 4LL * n + 16) { WFAIL("nzval-extent", "column %ld: value extent [%lld,%lld)", j, vb, ve); continue; }
+            for (long long k = vb; k < ve; ++k) sink += rabs(E2R(Lv[k]));
+        }
+    }
+    for (int_t j = 0; j < n; ++j) {
+        long long b = Us->colbeg[j], e = Us->colend[j];
+        if (b < 0 || e < b || e - b > 4LL * n + 16) { WFAIL("U-extent", "U column %ld extent [%lld,%lld)", (long)j, b, e); continue; }
+        for (long long k = b; k < e; ++k) sink += rabs(E2R(Uv[k])) + Us->rowind[k];
+    }
+    (void)sink;
+    return bad;
+#undef WFAIL
 }
